@@ -3,6 +3,8 @@
 R20.1  string-shape abstract interpretation of every NameSanitizer name function: for *every* input string the result is
        non-empty, starts with an identifier-start character, contains only identifier characters, and is not a keyword
 R20.5  parameter names stored for the generators are fixed points of the sanitiser the generators re-apply (no suffix glued on after sanitising)
+R20.7  schema references are resolved by their exact name, never by a sanitised / normalised key (names that sanitise alike stay distinct)  [= R2.10]
+R20.6  the tag grouping key is at least as coarse as the module / class / attribute names derived from a tag (tags have no de-dup step)     [= R7.7]
 R20.4  parameters of one operation keep distinct identifiers and none is dropped or merged (override keys, name-space consistency)  [= R4.4]
 R20.3  validated-return functions (enum member names): the return is dominated by the function's own validity test
        (`raise` unless fullmatch [A-Z_][A-Z0-9_]*) and preceded by the keyword suffix
@@ -80,6 +82,14 @@ def run(repo: Repo, rep: Report, tier: str) -> None:
 
     _reuse20(repo, rep, "c04", {"R4.4": "R20.4"})
     rule_stored_names_are_fixed_points(repo, rep, "R20.5")
+    # R20.6: tags are the one namespace without a de-duplication step - two tag groups never derive the same module / class / attribute
+    # name because the grouping key is at least as coarse as those names                                                   [= R7.7]
+    _reuse20(repo, rep, "c07", {"R7.7": "R20.6"})
+    # R20.7: a reference is resolved by the exact name it carries: when two schemas differ only by what sanitising removes, a lookup
+    # under the sanitised name returns the other schema                                                                     [= R2.10]
+    from rules.c02 import rule_exact_registry_lookups
+
+    rule_exact_registry_lookups(repo, rep, "R20.7")
     # ---------------------------------------------------------------- R20.3 validated returns
     eg = repo.module("visit.model.enum_generator").classes.get("EnumGenerator")
     if eg is None:
